@@ -191,7 +191,8 @@ func (e *Engine) VerifyFunc(fc *FuncContract) *FuncResult {
 			return fail(unsupported("parameter %s: %v", p.Name(), err))
 		}
 		if s == SFn {
-			v := &Val{Clo: &Closure{Param: p.Name(), T: Const("param!"+p.Name(), SFn)}, Typ: p.Type()}
+			fnT := Const("param!"+p.Name(), SFn)
+			v := &Val{T: fnT, Clo: &Closure{Param: p.Name(), T: fnT}, Typ: p.Type()}
 			fr.vals[p] = v
 			params = append(params, v)
 			continue
